@@ -34,6 +34,8 @@ Holds(c, r) ==
     [] c = "Sections"              -> (WF(r) /\ HasModel(r)) => r.obs.model.secs = r.pred.model.secs
     [] c = "Metadata"              -> (WF(r) /\ HasModel(r)) => r.obs.model.meta = r.pred.model.meta
     [] c = "Servings"              -> (WF(r) /\ HasModel(r)) => r.obs.model.servings = r.pred.model.servings
+    [] c = "ReadingAsSpecified"    -> (HasPred(r) /\ HasModel(r) /\ ~r.pred.failed) =>
+                                         [r.obs.model EXCEPT !.igr = SetMods(@), !.cw = SetMods(@)] = [r.pred.model EXCEPT !.igr = SetMods(@), !.cw = SetMods(@)]
     \* ---- C06: whatever comes back is referentially consistent, even alongside errors
     [] c = "ItemsIndexExisting"    -> HasModel(r) => ItemsIndexExisting(r.obs.model)
     [] c = "ComponentsInDocOrder"  -> HasModel(r) => ComponentsInDocOrder(r.obs.model)
